@@ -1,7 +1,7 @@
 (* C11 driver.  One history per line:
      seq <step> <step> ...
    steps:  F:<caps>:<ord>  R:<ord>  S:<path>:<g>  V:<path>:<g>  C:<path>:<slot>  K:<slot>:<g>
-           Q:<slot>:<g>  L  W  U:<n>
+           Q:<slot>:<g>  L  W  U:<n>  Z (owner waits for Done, then releases the result)
    path = e | f.f.f ; caps = - | path=k,path=k ; ord = - | path,path ; g = 0|1
    The i-th step launches thread i; after each launch all launched threads run to quiescence
    (lowest enabled first).  Output: per step "i:" + completions cJ=<outcome> and deliveries
@@ -17,7 +17,7 @@ let () =
   let a = Array.to_list Sys.argv in
   let rec go = function
     | "-variant" :: v :: r ->
-      variant := (match v with "asfound" -> as_found | "f11fixed" -> f11_fixed | _ -> fixed); go r
+      variant := (match v with "asfound" -> as_found | "f11fixed" -> f11_fixed | "latefixed" -> late_fixed | _ -> fixed); go r
     | _ :: r -> go r
     | [] -> () in
   go a
@@ -41,16 +41,20 @@ let op_of (s : string) : op =
   | [("K" | "Q"); s; g] -> OCall (z_of_int (int_of_string s), g_of g)
   | ["L"] -> ORelease
   | ["W"] -> OWait
+  | ["Z"] -> OConsume
   | ["U"; n] -> OUngate (nat_of_int (int_of_string n))
   | _ -> failwith ("bad step " ^ s)
 
 let dest_s = function
   | DCaller -> "caller" | DCap k -> "cap" ^ string_of_int (int_of_z k) | DRej -> "rej" | DFail -> "fail"
 let out_s = function
-  | ONone -> "none" | ORet -> "ret" | OPanic -> "panic" | ONoSlot -> "noslot"
+  | ONone -> "none" | ORet | ONoop -> "ret" | OPanic -> "panic" | ONoSlot -> "noslot"
   | OStruct true -> "ok" | OStruct false -> "rej"
   | OHandle (HProxy x) -> "p" ^ string_of_int (int_of_nat x)
   | OHandle (HDirect d) -> dest_s d
+
+(* quiescence fuel: built once (nat is unary; building it per phase dominated the run time) *)
+let fuel = nat_of_int 4000
 
 let rec take n l = if n = 0 then [] else match l with [] -> [] | x :: r -> x :: take (n - 1) r
 
@@ -62,7 +66,7 @@ let run_seq (ops : op list) : string =
   let i = ref 0 in
   while !i < n && not !hang do
     let before = !c in
-    (match quiesce !variant (nat_of_int 100000) before (nat_of_int (!i + 1)) with
+    (match quiesce !variant fuel before (nat_of_int (!i + 1)) with
      | None -> Buffer.add_string b "FUEL"; hang := true
      | Some c' ->
        c := c';
